@@ -3,7 +3,7 @@
 From Coq Require Import Bool NArith List Lia Arith Permutation.
 Import ListNotations.
 From RsddV Require Import Base.Bdd Base.Util Model.SddVtree Model.SddOps Proofs.SddBase.
-From RsddV Require Import Proofs.SddVtree Proofs.SddInv Proofs.SddLoops Proofs.SddNode Proofs.SddWf.
+From RsddV Require Import Proofs.SddCmp Proofs.SddVtree Proofs.SddInv Proofs.SddLoops Proofs.SddNode Proofs.SddWf.
 
 Lemma sneg_inj p q : sneg p = sneg q -> p = q.
 Proof. intros H. rewrite <- (sneg_invol p), <- (sneg_invol q), H. reflexivity. Qed.
@@ -23,6 +23,11 @@ Proof.
     + apply IH. intros H. apply Hn. auto.
 Qed.
 
+Lemma norm_first_sneg s : s_is_neg s || s_is_false s || s_is_neg_var s = true -> norm_first (sneg s) = true.
+Proof. intros E. destruct s as [| |v [|]|[|] l j a b|[|] j els]; simpl in E; try discriminate; reflexivity. Qed.
+Lemma norm_first_not_both s : norm_first s = true -> norm_first (sneg s) = true -> False.
+Proof. destruct s as [| |v [|]|[|] l j a b|[|] j els]; simpl; discriminate. Qed.
+
 (* ---- unique_bdd ---- *)
 Lemma unique_bdd_nf lbl lo hi i : nf lo -> nf hi -> nf (unique_bdd lbl lo hi i).
 Proof.
@@ -34,7 +39,7 @@ Proof.
   destruct (s_is_neg hi || s_is_false hi || s_is_neg_var hi) eqn:E4.
   - cbn [nf]. repeat split; auto using nf_sneg.
     + intros H. apply sneg_inj in H. congruence.
-    + clear -E4. destruct hi as [| |v [|]|[|] l j a b|[|] j els]; simpl in E4; try discriminate; reflexivity.
+    + apply norm_first_sneg. exact E4.
     + intros [A B]. destruct hi; try discriminate; destruct lo; discriminate.
   - cbn [nf]. repeat split; auto.
     + unfold norm_first. rewrite E4. reflexivity.
@@ -55,7 +60,8 @@ Proof.
       simpl in Es. injection Es as <- <- <- <-. inversion Hn as [|? ? [_ A] Hn']; subst. inversion Hn' as [|? ? [_ B] _]; subst. auto. }
     destruct N01. apply unique_bdd_nf; destruct pol; auto.
   - pose proof (sort_els_perm node) as P.
-    assert (K : forall c, nf (SOr c i (sort_els node)) /\ nf (SOr c i (negsubs (sort_els node)))).
+    assert (K : forall c, (norm_first (snd (hd (ST, ST) (sort_els node))) = true -> nf (SOr c i (sort_els node))) /\
+                          (norm_first (snd (hd (ST, ST) (negsubs (sort_els node)))) = true -> nf (SOr c i (negsubs (sort_els node))))).
     { intros c.
       assert (Hn' : nfl (sort_els node)) by (unfold nfl; rewrite P; exact Hn).
       assert (Hlen' : length (sort_els node) = length node) by (apply Permutation_length; exact P).
@@ -69,8 +75,8 @@ Proof.
         destruct node as [|[p0 t0] [|[p1 t1] [|e2 rest]]]; try discriminate.
         inversion F as [|? ? (v0 & b0 & A) F']; subst. inversion F' as [|? ? (v1 & b1 & B) _]; subst.
         simpl in A, B. subst. discriminate. }
-      unfold elem in *. split; apply nf_or.
-      - repeat split; auto; try (rewrite Hlen'; lia). rewrite Hlen'. intros (A & B & C). apply Htf. rewrite <- !Hin. auto.
+      unfold elem in *. split; intros Hnorm; apply nf_or.
+      - repeat split; auto using sort_els_sorted; try (rewrite Hlen'; lia). rewrite Hlen'. intros (A & B & C). apply Htf. rewrite <- !Hin. auto.
       - assert (Ms : map snd (negsubs (sort_els node)) = map sneg (map snd (sort_els node))).
         { unfold negsubs. rewrite !map_map. reflexivity. }
         assert (Ml : length (negsubs (sort_els node)) = length (sort_els node)) by (unfold negsubs; apply map_length).
@@ -82,9 +88,13 @@ Proof.
         + rewrite Ms. unfold negsubs at 1. rewrite map_length, Hlen'. intros (A & B & C). apply Htf. rewrite <- !Hin. repeat split; auto.
           * apply in_map_iff in C. destruct C as (y & Ey & Hy). destruct y; try discriminate. exact Hy.
           * apply in_map_iff in B. destruct B as (y & Ey & Hy). destruct y; try discriminate. exact Hy.
-        + unfold negsubs at 1. rewrite map_length. intros [L F]. apply Hlit. split; auto. unfold negsubs in F. rewrite Forall_map in F. exact F. }
+        + unfold negsubs at 1. rewrite map_length. intros [L F]. apply Hlit. split; auto. unfold negsubs in F. rewrite Forall_map in F. exact F.
+        + unfold negsubs. apply sorted_map_snd. apply sort_els_sorted.
+        + exact Hnorm. }
     destruct (sort_els node) as [|[p0 s0] rest] eqn:Esort; [discriminate|].
-    destruct (s_is_neg s0 || s_is_false s0 || s_is_neg_var s0); injection E as <-; apply K.
+    destruct (s_is_neg s0 || s_is_false s0 || s_is_neg_var s0) eqn:En; injection E as <-.
+    + apply (K true). simpl. apply norm_first_sneg. exact En.
+    + apply (K false). simpl. unfold norm_first. rewrite En. reflexivity.
 Qed.
 
 (* ---- compress: afterwards the subs are pairwise distinct ---- *)
